@@ -1,3 +1,127 @@
 import VpnCloud.Model.Node
+import VpnCloud.Proofs.Lemmas.NodeLemmas
+/-
+  C09 — dispatch: a datagram without the handshake marker from the address of an established peer is
+  processed by that peer's session, whatever handshake is pending for that address.
+
+  The statement as given (arbitrary `q1`, `q2`) is FALSE in its first conjunct (the outputs; the second
+  conjunct, the peers, does hold for arbitrary `q1`, `q2`): when the session delivers a node-information
+  message, `update_peer_info` → `connect_to_peers` → `connect` dials the peers listed in it unless a
+  handshake with them is already pending, so the handshake datagrams emitted depend on the pending
+  handshakes of *other* addresses (counterexample: `dispatch_original_false` below).  This is no
+  dispatch defect: it is the intended behaviour of `connect`.
+
+  Hypothesis added to `dispatch_reaches_session`: `hq`, the two pending lists agree off the sender's
+  address (`eraseA q1 src = eraseA q2 src`) — exactly "whatever pending handshakes exist for that
+  address".  In addition `dispatch_any_pending` proves for ARBITRARY `q1`, `q2` (no hypothesis) that the
+  peers agree and the outputs agree up to handshake datagrams.
+-/
 namespace VpnCloud.Proofs.C09
+
+open VpnCloud VpnCloud.Node
+open VpnCloud.Proofs.NodeLemmas
+
+/-- both runs of `handleNet` end in contexts that differ at most in the pending handshake stored for the sender's address -/
+theorem dispatch_sim (env : CryptoEnv) (bodyOf : Init.BodyOf) (o : Oracle) (n : Node) (now : Int) (src : NAddr) (data tail : Bytes) (p : Peer)
+    (hinit : data.head? ≠ some Generated.INIT_MESSAGE_FIRST_BYTE) (hp : lookupA n.peers (mappedAddr src) = some p)
+    (q1 q2 : List (NAddr × PeerCrypto)) (hq : eraseA q1 (mappedAddr src) = eraseA q2 (mappedAddr src)) :
+    Sim (mappedAddr src) (handleNet env bodyOf o { n with pending := q1 } now src data tail).1
+      (handleNet env bodyOf o { n with pending := q2 } now src data tail).1 := by
+  rw [handleNet_eq, handleNet_eq]
+  have hd : ∀ q, dispatch env bodyOf o { n with pending := q } now (mappedAddr src) data tail =
+      applyOutcome env o { node := { n with pending := q } } now (mappedAddr src) true
+        (PeerCrypto.handleMessage env bodyOf payloadOk p.crypto data tail
+          (rndFor o { node := n } (mappedAddr src)).1 (rndFor o { node := n } (mappedAddr src)).2.1) := by
+    intro q
+    unfold dispatch
+    simp only [hp, hinit, decide_false, Bool.not_false, if_true]
+    rfl
+  rw [hd q1, hd q2]
+  have hs : SimP (mappedAddr src) { node := { n with pending := q1 } } { node := { n with pending := q2 } } :=
+    ⟨⟨q1, rfl, hq⟩, by simp [hp]⟩
+  obtain ⟨h2, h1⟩ := applyOutcome_sim env o (mappedAddr src) _ _ now _
+    (fun pc out res log h => handleMessage_plain env bodyOf payloadOk p.crypto data tail _ _ hinit pc out res log h) hs
+  exact finish_sim _ _ _ h2 h1
+
+/-- **dispatch_reaches_session**: a datagram without the handshake marker from the address of an established peer is processed by that
+    peer's session, whatever pending handshakes exist for that address.
+    Added hypothesis `hq`: the two pending lists differ only in what is stored for the sender's address (see the header and
+    `dispatch_original_false` for why the statement is false without it). -/
+theorem dispatch_reaches_session (env : CryptoEnv) (bodyOf : Init.BodyOf) (o : Oracle) (n : Node) (now : Int) (src : NAddr) (data tail : Bytes) (p : Peer)
+    (hinit : data.head? ≠ some Generated.INIT_MESSAGE_FIRST_BYTE) (hp : lookupA n.peers (mappedAddr src) = some p)
+    (q1 q2 : List (NAddr × PeerCrypto)) (hq : eraseA q1 (mappedAddr src) = eraseA q2 (mappedAddr src)) :
+    (handleNet env bodyOf o { n with pending := q1 } now src data tail).1.outs = (handleNet env bodyOf o { n with pending := q2 } now src data tail).1.outs ∧
+    (handleNet env bodyOf o { n with pending := q1 } now src data tail).1.node.peers = (handleNet env bodyOf o { n with pending := q2 } now src data tail).1.node.peers :=
+  have h := dispatch_sim env bodyOf o n now src data tail p hinit hp q1 q2 hq
+  ⟨h.outs, h.peers⟩
+
+/-- for ARBITRARY pending handshakes (no hypothesis on `q1`, `q2`): the peers after the step agree, and the outputs agree up to handshake
+    datagrams (`nonHs` removes the datagrams starting with the handshake marker; everything written to the interface and every
+    sealed datagram is kept) -/
+theorem dispatch_any_pending (env : CryptoEnv) (bodyOf : Init.BodyOf) (o : Oracle) (n : Node) (now : Int) (src : NAddr) (data tail : Bytes) (p : Peer)
+    (hinit : data.head? ≠ some Generated.INIT_MESSAGE_FIRST_BYTE) (hp : lookupA n.peers (mappedAddr src) = some p)
+    (q1 q2 : List (NAddr × PeerCrypto)) :
+    nonHs (handleNet env bodyOf o { n with pending := q1 } now src data tail).1.outs =
+      nonHs (handleNet env bodyOf o { n with pending := q2 } now src data tail).1.outs ∧
+    (handleNet env bodyOf o { n with pending := q1 } now src data tail).1.node.peers = (handleNet env bodyOf o { n with pending := q2 } now src data tail).1.node.peers := by
+  rw [handleNet_eq, handleNet_eq]
+  have hd : ∀ q, dispatch env bodyOf o { n with pending := q } now (mappedAddr src) data tail =
+      applyOutcome env o { node := { n with pending := q } } now (mappedAddr src) true
+        (PeerCrypto.handleMessage env bodyOf payloadOk p.crypto data tail
+          (rndFor o { node := n } (mappedAddr src)).1 (rndFor o { node := n } (mappedAddr src)).2.1) := by
+    intro q
+    unfold dispatch
+    simp only [hp, hinit, decide_false, Bool.not_false, if_true]
+    rfl
+  rw [hd q1, hd q2, finish_outs, finish_outs, finish_peers, finish_peers]
+  have h := applyOutcome_weak env o (mappedAddr src) { node := { n with pending := q1 } } { node := { n with pending := q2 } } now
+    (PeerCrypto.handleMessage env bodyOf payloadOk p.crypto data tail
+      (rndFor o { node := n } (mappedAddr src)).1 (rndFor o { node := n } (mappedAddr src)).2.1)
+    (fun pc out res log h => handleMessage_plain env bodyOf payloadOk p.crypto data tail _ _ hinit pc out res log h) rfl rfl rfl
+  exact ⟨h.2, h.1⟩
+
+/-! ## counterexample to the statement without `hq`, and non-vacuity
+
+  Node `n` has one established peer at `s` with an unencrypted session.  The peer sends a node-information
+  message that lists a third node at address `a`.  Without a pending handshake for `a` the node dials `a`
+  (one handshake datagram); with one pending it does not. -/
+namespace Cex
+open VpnCloud.Proofs.InitLemmas
+
+def s : NAddr := .v6 (List.replicate 16 0) 1
+def a : NAddr := .v6 (List.replicate 16 0) 2
+def p : Peer := { addrs := [], timeout := 0, peerTimeout := 300, nodeId := List.replicate 16 1, crypto := { init := none, unencrypted := true } }
+def n : Node :=
+  { nodeId := List.replicate 16 9, addr := .v6 (List.replicate 16 0) 3,
+    cfg := { tap := false, learning := false, broadcast := false, peerTimeout := 300, peerTimeoutPublish := 300, updateFreq := 10,
+             claims := [], key := [7, 7, 7, 7], trusted := [[9, 9, 9, 9]], algos := Toy.algos },
+    peers := [(s, p)], table := { cacheTimeout := 300, claimTimeout := 300 } }
+def o : Oracle := { emitted := fun _ _ => [], rotProp := fun _ => 0, rotPend := fun _ => 0, starts := fun _ => [] }
+def info : NodeInfo := { nodeId := List.replicate 16 1, peers := [{ nodeId := none, addrs := [a] }], claims := [], peerTimeout := none, addrs := [] }
+def data : Bytes := Generated.MESSAGE_TYPE_NODE_INFO :: Codec.encodeNodeInfo info
+def q2 : List (NAddr × PeerCrypto) := [(a, { init := none })]
+
+theorem hinit : data.head? ≠ some Generated.INIT_MESSAGE_FIRST_BYTE := by decide
+theorem hp : lookupA n.peers (mappedAddr s) = some p := rfl
+
+/-- the first conjunct of the original statement fails for `q1 = []`, `q2 = [(a, _)]` -/
+theorem outs_differ :
+    (handleNet Toy.env (Toy.body 0) o { n with pending := [] } 0 s data []).1.outs ≠
+    (handleNet Toy.env (Toy.body 0) o { n with pending := q2 } 0 s data []).1.outs := by decide
+
+/-- … while the conclusions of `dispatch_any_pending` hold there, and `hq` of `dispatch_reaches_session` is satisfiable with different
+    pending handshakes for the sender's address -/
+example : eraseA ([] : List (NAddr × PeerCrypto)) (mappedAddr s) = eraseA [(s, ({ init := none } : PeerCrypto))] (mappedAddr s) := rfl
+
+end Cex
+
+/-- the statement as given in the task (without `hq`) is false -/
+theorem dispatch_original_false :
+    ¬ (∀ (env : CryptoEnv) (bodyOf : Init.BodyOf) (o : Oracle) (n : Node) (now : Int) (src : NAddr) (data tail : Bytes) (p : Peer)
+        (_ : data.head? ≠ some Generated.INIT_MESSAGE_FIRST_BYTE) (_ : lookupA n.peers (mappedAddr src) = some p)
+        (q1 q2 : List (NAddr × PeerCrypto)),
+        (handleNet env bodyOf o { n with pending := q1 } now src data tail).1.outs = (handleNet env bodyOf o { n with pending := q2 } now src data tail).1.outs ∧
+        (handleNet env bodyOf o { n with pending := q1 } now src data tail).1.node.peers = (handleNet env bodyOf o { n with pending := q2 } now src data tail).1.node.peers) :=
+  fun h => Cex.outs_differ (h _ _ Cex.o Cex.n 0 Cex.s Cex.data [] Cex.p Cex.hinit Cex.hp [] Cex.q2).1
+
 end VpnCloud.Proofs.C09
